@@ -39,6 +39,7 @@ type Script struct {
 	sorts    *Sorts
 	lines    []string
 	declared map[string]bool
+	declLine map[string]int
 	nfresh   int
 	tagSort  map[string]string // tag -> SMT sort of the stored term
 	epochPar map[int][]epochParent
@@ -138,6 +139,10 @@ func (sc *Script) tagDefault(tag string, epoch int) string {
 		return name
 	}
 	sc.declared[name] = true
+	if sc.declLine == nil {
+		sc.declLine = map[string]int{}
+	}
+	sc.declLine[name] = len(sc.lines)
 	srt, ok := sc.tagSort[tag]
 	if !ok {
 		panic("tag without sort: " + tag)
@@ -209,6 +214,17 @@ func (sc *Script) lookup(st *State, tag string) string {
 		return v
 	}
 	return sc.tagDefault(tag, st.epoch)
+}
+
+// truncate drops the lines emitted since length n (a probe evaluation) together with the lazy declarations made in them.
+func (sc *Script) truncate(n int) {
+	for name, ln := range sc.declLine {
+		if ln >= n {
+			delete(sc.declared, name)
+			delete(sc.declLine, name)
+		}
+	}
+	sc.lines = sc.lines[:n]
 }
 
 func (sc *Script) regTag(tag, srt string) {
